@@ -522,7 +522,9 @@ class LambdaExpression(Expression):
         return [self.expression]
 
     def scope(self) -> Iterable[Identifier]:
-        return self.params
+        # `map()` binds an item and, optionally, its index. More parameters than
+        # that are never bound.
+        return self.params[:2]
 
     def map(self, context: RenderContext, it: Iterable[object]) -> Iterator[object]:
         """Return an iterator mapping this expression to items in _it_."""
